@@ -25,6 +25,8 @@ import PhQVerif.Checkers
 import PhQVerif.Generated.M_ElasticIsotropicSolid
 import PhQVerif.Generated.Obl_SameFormula
 import PhQVerif.Generated.Obl_ModelOverloads
+import PhQVerif.Generated.Obl_NarrowM
+import PhQVerif.Generated.All
 
 namespace PhQVerif.Props.C12
 open PhQVerif Generated
@@ -300,6 +302,19 @@ theorem all_formats :
       t.1.tree.valuesR x = t.2.1.tree.valuesR x ∧ t.2.2.tree.valuesR x = t.2.1.tree.valuesR x := by
   intro t ht x
   exact sameFormula_sound (List.all_eq_true.mp Obl.SameFormula t ht) x
+
+/-- **C12 (every overload in its own precision).** No operation of any constructor, accessor or of any of
+the three numeric-type overloads of the model functions — on models of all three numeric types, called
+directly and through the abstract interface — is carried out with fewer significand bits than the lower
+of the model's and the argument's numeric type. Together with `overloads_same_formula` (same formula over
+the reals) this is what "the same, to the precision of each type" means; a `static_cast<float>` left in
+the `double` overload is invisible to the formula but not to this theorem. -/
+theorem overloads_keep_precision :
+    ∀ e ∈ modelEntries, ∀ ex ∈ e.tree.exprs, e.needP ≤ ex.minP := by
+  intro e he ex hex
+  have h : Chk.NoNarrowing e = true := List.all_eq_true.mp Obl.NarrowM e he
+  simp only [Chk.NoNarrowing, checkNoNarrowing, List.all_eq_true, decide_eq_true_eq] at h
+  exact h ex hex
 
 /-- Every one of the three numeric-type overloads of each of the five virtual functions (and of
 `GetType`, `Print`, `JSON`, `XML`, `YAML`), called directly or **through a reference to the abstract
